@@ -79,11 +79,89 @@ def storage_problems(types, root, allow_cell=None):
     return out, len(seen)
 
 
+_ATOMIC_WRITES = ('::fetch_add', '::fetch_sub', '::fetch_max', '::fetch_min', '::store', '::fetch_or', '::fetch_and', '::swap')
+
+
+def static_only_observed(facts, path):
+    """An atomic counter that is only counted up and reported: every use of the static in the workspace is an atomic update whose
+    returned old value is dropped or only logged, or a load whose value flows only into log / print arguments.  Such a static
+    carries nothing from one computation into another."""
+    n = 0
+    for b in facts.bodies.values():
+        seeds = set()
+        uses = []
+        tr = None
+        for bi, bb in enumerate(b.blocks):
+            for st in bb['stmts']:
+                if st['s'] == 'assign':
+                    rv = st['rv']
+                    for o in [rv.get('a'), rv.get('b')] + list(rv.get('ops') or []):
+                        if isinstance(o, dict) and o.get('k') == 'const' and (o.get('static') or '').replace('packing::', '') == path:
+                            uses.append(('stmt', bi, st))
+            t = bb['term']
+            if t['t'] == 'call':
+                for ai, a in enumerate(t['args']):
+                    src = a
+                    if isinstance(a, dict) and 'l' in a:
+                        tr = tr or Tracer(b)
+                        o = tr.origin(a)
+                        src = o['c'] if o['o'] == 'const' else None
+                    if isinstance(src, dict) and src.get('k') == 'const' and (src.get('static') or '').replace('packing::', '') == path:
+                        uses.append(('call', bi, t, ai))
+        for u in uses:
+            if u[0] == 'stmt':
+                # the address is copied into a local first (`_3 = const &STATIC`): the call that takes the local is judged
+                continue
+            _k, bi, t, ai = u
+            n += 1
+            nm = callee_name(t) or ''
+            if ai != 0 or 'atomic' not in nm.lower():
+                return False
+            if nm.endswith(_ATOMIC_WRITES) or nm.endswith('::load'):
+                if t['dest']['p']:
+                    return False
+                seeds.add(t['dest']['l'])
+            else:
+                return False
+        if seeds:
+            r = _flows_only_to_log(b, seeds, allow_return=True)
+            if r is False:
+                return False
+            if r == 'returns' and not _result_only_logged(facts, b, 0):
+                return False
+    return n > 0
+
+
+def _result_only_logged(facts, fn_body, depth):
+    """Every call of fn_body in the workspace uses the result for nothing but log / print arguments (or hands it on as ITS result,
+    one more level)."""
+    if depth > 2:
+        return False
+    found = False
+    for b in facts.bodies.values():
+        seeds = set()
+        for bi, t in b.calls():
+            cb = facts.body_of_fnconst(t['func']) if t['func'].get('k') == 'const' else None
+            if cb is not None and (cb is fn_body or cb.path == fn_body.path):
+                if t['dest']['p']:
+                    return False
+                seeds.add(t['dest']['l'])
+                found = True
+        if seeds:
+            r = _flows_only_to_log(b, seeds, allow_return=True)
+            if r is False or (r == 'returns' and not _result_only_logged(facts, b, depth + 1)):
+                return False
+    return True
+
+
 def static_problems(facts):
     out = []
     for s in facts.statics:
         if s['mutable']:
             out.append((s['path'], 'static mut'))
+        elif not s['freeze'] and 'atomic::Atomic' in s.get('ty', '') and not s['thread_local'] and \
+                static_only_observed(facts, s['path'].replace('packing::', '')):
+            continue        # a counter that is only counted and reported
         elif not s['freeze']:
             out.append((s['path'], 'static with interior mutability' + (' (thread_local)' if s['thread_local'] else '')))
         elif s['thread_local']:
@@ -91,11 +169,111 @@ def static_problems(facts):
     return out
 
 
+CLOCKS = ('SystemTime::now', 'Instant::now')
+_TIME_DERIVED = ('Instant::elapsed', 'Instant::duration_since', 'Instant::saturating_duration_since', 'SystemTime::elapsed',
+                 'SystemTime::duration_since', 'Duration::as_secs_f64', 'Duration::as_secs_f32', 'Duration::as_secs',
+                 'Duration::as_millis', 'Duration::as_micros', 'Duration::as_nanos', 'Duration::subsec_millis',
+                 'Duration::subsec_micros', 'Duration::subsec_nanos', 'for std::time::Instant>::sub', 'for std::time::Duration>::sub',
+                 'for std::time::Duration>::add', 'Result::<T, E>::unwrap_or_default', 'Result::<T, E>::unwrap_or', 'Clone>::clone')
+_FMT_ARG = ('core::fmt::rt::Argument::<\'_>::new_', 'fmt::rt::Argument::new_', 'fmt::Arguments::<\'a>::new', 'fmt::Arguments::new',
+            'Arguments::<\'a>::new_v1', 'Arguments::new_v1')
+_LOG_SINKS = ('log::__private_api_log', 'log::__private_api::log', 'std::io::_eprint', 'std::io::_print')
+
+
+def clock_only_logged(body):
+    """Every clock reading made in `body` flows, through time arithmetic, into the arguments of a log / print line and nowhere
+    else: not into a branch, a call, a field, the result.  (Elapsed time that is only reported does not make a result depend on
+    when or where the code ran.)  Forward data flow over the locals of the body; any other use of a time-derived value fails."""
+    time = set()
+    for bi, t in body.calls():
+        if any(x in (callee_name(t) or '') for x in CLOCKS):
+            if t['dest']['p']:
+                return False
+            time.add(t['dest']['l'])
+    if not time:
+        return True
+    return _flows_only_to_log(body, time)
+
+
+def _flows_only_to_log(body, seeds, allow_return=False):
+    """True / False; with allow_return, 'returns' if the only escape is into the function's result."""
+    time, fmt = set(seeds), set()
+    returned = [False]
+
+    def reads(op):
+        return isinstance(op, dict) and 'l' in op and op.get('k') in ('copy', 'move')
+    for _ in range(30):
+        changed = False
+        for bi, bb in enumerate(body.blocks):
+            if bb.get('cleanup'):
+                continue
+            for st in bb['stmts']:
+                if st['s'] != 'assign':
+                    continue
+                rv = st['rv']
+                srcs = [o for o in [rv.get('a'), rv.get('b')] + list(rv.get('ops') or []) if reads(o)]
+                if 'place' in rv and isinstance(rv['place'], dict) and rv['r'] != 'discr':
+                    # (which variant an `Option<Instant>` is was decided by whoever built it, not by the clock)
+                    srcs.append({'l': rv['place']['l'], 'k': 'copy'})
+                for kind in (time, fmt):
+                    if any(o['l'] in kind for o in srcs):
+                        if st['place']['p'] and any(e == 'deref' for e in st['place']['p']):
+                            return False            # stored through a pointer: escapes
+                        if rv['r'] in ('binop', 'unop', 'cast') and kind is time and rv['r'] != 'cast':
+                            pass                    # arithmetic on a time value is still a time value
+                        if st['place']['l'] == 0:
+                            if not allow_return:
+                                return False        # becomes (part of) the result
+                            returned[0] = True
+                        if st['place']['l'] not in kind:
+                            kind.add(st['place']['l'])
+                            changed = True
+            t = bb['term']
+            if t['t'] == 'switch' and reads(t['discr']) and (t['discr']['l'] in time or t['discr']['l'] in fmt):
+                return False                        # control flow depends on the clock
+            if t['t'] == 'call':
+                nm = callee_name(t) or ''
+                ta = [a for a in t['args'] if reads(a) and a['l'] in time]
+                fa = [a for a in t['args'] if reads(a) and a['l'] in fmt]
+                if not ta and not fa:
+                    continue
+                dest = t['dest']['l'] if t.get('dest') and not t['dest']['p'] else None
+                if any(x in nm for x in CLOCKS):
+                    continue
+                if ta and any(x in nm for x in _TIME_DERIVED):
+                    if dest == 0 and allow_return:
+                        returned[0] = True
+                        continue
+                    if dest is None or dest == 0:
+                        return False
+                    if dest not in time:
+                        time.add(dest)
+                        changed = True
+                elif any(x in nm for x in _FMT_ARG):
+                    if dest is None or dest == 0:
+                        return False
+                    if dest not in fmt:
+                        fmt.add(dest)
+                        changed = True
+                elif any(x in nm for x in _LOG_SINKS) and not ta:
+                    continue
+                else:
+                    return False                    # a time-derived value handed to anything else
+        if not changed:
+            break
+    return 'returns' if returned[0] else True
+
+
 def nd_reachable(facts, cg, roots):
     ext = cg.ext_reachable(roots)
     hits = []
     for name, callers in ext.items():
         if any(x in name for x in ND_SOURCES):
+            if any(x in name for x in CLOCKS):
+                # a clock that is only read to report elapsed time in a log line
+                callers = [k for k in callers if not clock_only_logged(facts.bodies[k])]
+                if not callers:
+                    continue
             hits.append((name, sorted(callers)[:3]))
     # parallel reductions whose result depends on how rayon splits the work: a float sum / product (floating-point addition is
     # not associative), a reduction or fold with an arbitrary operator, find_any
@@ -152,7 +330,7 @@ def clone_problems(facts, body):
     return probs
 
 
-def run(ctx):
+def _run_rules(ctx):
     rep, f, cg = ctx.rep, ctx.facts, ctx.cg
     rep.trust('rayon executes each closure call with the arguments it was given; rustc type information (field types, Freeze); '
               'derived Clone impls are field-wise')
@@ -507,3 +685,10 @@ def thorough(ctx):
         rep.check(verdict == 'ok', 'W', '%s:%s' % (w, kind), 'witness/src/lib.rs', wanted[w] + (' (does not compile)' if kind == 'compile_fail' else ' (twin compiles)'),
                   'witness %s/%s failed: the type-level guarantee "%s" no longer holds for downstream code (or the public API it uses changed)' % (w, kind, wanted[w]))
     rep.floor('W', 'witness doctests', n, 4, 'witness/src/lib.rs')
+
+
+def run(ctx):
+    _run_rules(ctx)
+    # R8: setter fidelity of the builder (the seed given is the seed stored)
+    from .common import builder_setters
+    builder_setters(ctx, 'R8', ['seed'])
